@@ -607,10 +607,12 @@ class Check(core.PropertyCheck):
         g = models[0].graph
         cap = models[0].constants["Cap"]
         behs = g.edge_cover(ctx.rng, max_len=60, tail=12)
-        behs += g.random_walks(ctx.rng, 200 if ctx.quick else 6000, 60)
-        for b in behs:
+        behs += g.random_walks(ctx.rng, 60 if ctx.quick else 3000, 60)
+        for i, b in enumerate(behs):
             sc = self._scenario(b, cap)
             yield sc
+            if not ctx.quick and i % 2:
+                continue
             # the same environment under asyncio.eager_task_factory (what mitmproxy's master installs): judged by the
             # monitor only -- the model describes the default factory
             yield core.Scenario(sc.data | {"eager": True, "lenient": True}, source="model-eager")
@@ -619,7 +621,7 @@ class Check(core.PropertyCheck):
             sc.source = "simulate"
             yield sc
         rng = random.Random(ctx.seed + 9)
-        for _ in range(500 if ctx.quick else 12000):
+        for _ in range(500 if ctx.quick else 8000):
             yield core.Scenario(random_scenario(rng), source="random")
 
     def drift_view(self, trace):
